@@ -448,46 +448,109 @@ func c03LabelsJSON(c *Ctx, fn *ssa.Function) {
 	left, used := strSlices[0], strSlices[1]
 	key := FuncName(fn)
 	// (a) every construction of an hcl.Block lies on the edge where len(left) > 0 is false
-	nLit := 0
-	for _, b := range fn.Blocks {
-		for _, ins := range b.Instrs {
-			al, ok := ins.(*ssa.Alloc)
-			if !ok || !isNamed(al.Type().(*types.Pointer).Elem(), modPath, "Block") {
+	noneLeft := func(b *ssa.BasicBlock) bool {
+		for _, ce := range ctlEdges(b) {
+			bo, ok := ce.iff.Cond.(*ssa.BinOp)
+			if !ok {
 				continue
 			}
-			nLit++
-			c.Sites++
-			okEdge := false
-			for _, ce := range ctlEdges(b) {
-				bo, ok := ce.iff.Cond.(*ssa.BinOp)
-				if !ok {
-					continue
-				}
-				x := lenOf(stripConv(bo.X))
-				k, isK := constIntVal(bo.Y)
-				if x != ssa.Value(left) || !isK {
-					continue
-				}
-				switch {
-				case bo.Op == token.GTR && k == 0 && !ce.onTrue,
-					bo.Op == token.EQL && k == 0 && ce.onTrue,
-					bo.Op == token.NEQ && k == 0 && !ce.onTrue,
-					bo.Op == token.GEQ && k == 1 && !ce.onTrue,
-					bo.Op == token.LSS && k == 1 && ce.onTrue:
-					okEdge = true
+			x := lenOf(stripConv(bo.X))
+			k, isK := constIntVal(bo.Y)
+			if x != ssa.Value(left) || !isK {
+				continue
+			}
+			switch {
+			case bo.Op == token.GTR && k == 0 && !ce.onTrue,
+				bo.Op == token.EQL && k == 0 && ce.onTrue,
+				bo.Op == token.NEQ && k == 0 && !ce.onTrue,
+				bo.Op == token.GEQ && k == 1 && !ce.onTrue,
+				bo.Op == token.LSS && k == 1 && ce.onTrue:
+				return true
+			}
+		}
+		return false
+	}
+	isBlockAlloc := func(ins ssa.Instruction) *ssa.Alloc {
+		al, ok := ins.(*ssa.Alloc)
+		if ok && isNamed(al.Type().(*types.Pointer).Elem(), modPath, "Block") {
+			return al
+		}
+		return nil
+	}
+	// makers: closures of unpackBlock and helpers of the package that return a freshly built block
+	makers := map[*ssa.Function]bool{}
+	var cands []*ssa.Function
+	cands = append(cands, fn.AnonFuncs...)
+	for _, b := range fn.Blocks {
+		for _, ins := range b.Instrs {
+			if call, ok := ins.(*ssa.Call); ok {
+				if k := staticCallee(&call.Call); k != nil && k != fn && fnPkg(k) == fnPkg(fn) && len(k.Blocks) > 0 {
+					cands = append(cands, k)
 				}
 			}
-			c.Check(okEdge, "labels.exact", key+":block-literal", al.Pos(), "constructed only when no label name is left",
-				"an hcl.Block is constructed on a path where label names may still be left: the block has fewer labels than the schema names")
-			// its Labels field: a copy of the used-label list
-			labelsOK := false
-			for _, st := range fieldStoresByName(al, "Labels") {
-				if derivesFromCopyOf(st.Val, used) {
+		}
+	}
+	for _, k := range cands {
+		for _, b := range k.Blocks {
+			for _, ins := range b.Instrs {
+				if isBlockAlloc(ins) != nil {
+					makers[k] = true
+				}
+			}
+		}
+	}
+	nLit := 0
+	checkLabels := func(al *ssa.Alloc, usedHere ssa.Value, args []ssa.Value, params []*ssa.Parameter) {
+		labelsOK := false
+		for _, st := range fieldStoresByName(al, "Labels") {
+			for _, o := range originsOf(st.Val, nil) {
+				if derivesFromCopyOf(o, used) {
 					labelsOK = true
 				}
+				// a parameter of a maker: judge the argument handed in by unpackBlock
+				if p, ok := o.(*ssa.Parameter); ok {
+					for i, q := range params {
+						if q == p && i < len(args) {
+							for _, oa := range originsOf(args[i], nil) {
+								if derivesFromCopyOf(oa, used) {
+									labelsOK = true
+								}
+							}
+						}
+					}
+				}
 			}
-			c.Check(labelsOK, "labels.exact", key+":block-literal.Labels", al.Pos(), "Labels is a copy of the used-label list",
-				"the Labels of the constructed block are not a copy of the labels collected on the way down")
+		}
+		c.Check(labelsOK, "labels.exact", key+":block-literal.Labels", al.Pos(), "Labels is a copy of the used-label list",
+			"the Labels of the constructed block are not a copy of the labels collected on the way down")
+	}
+	for _, b := range fn.Blocks {
+		for _, ins := range b.Instrs {
+			if al := isBlockAlloc(ins); al != nil {
+				nLit++
+				c.Sites++
+				c.Check(noneLeft(b), "labels.exact", key+":block-literal", al.Pos(), "constructed only when no label name is left",
+					"an hcl.Block is constructed on a path where label names may still be left: the block has fewer labels than the schema names")
+				checkLabels(al, used, nil, nil)
+				continue
+			}
+			if call, ok := ins.(*ssa.Call); ok {
+				k := staticCallee(&call.Call)
+				if k == nil || !makers[k] {
+					continue
+				}
+				nLit++
+				c.Sites++
+				c.Check(noneLeft(b), "labels.exact", key+":block-literal", call.Pos(), "constructed only when no label name is left",
+					"an hcl.Block is constructed on a path where label names may still be left: the block has fewer labels than the schema names")
+				for _, kb := range k.Blocks {
+					for _, kin := range kb.Instrs {
+						if al := isBlockAlloc(kin); al != nil {
+							checkLabels(al, used, call.Call.Args, k.Params)
+						}
+					}
+				}
+			}
 		}
 	}
 	c.Floor("labels.exact json block literals", nLit, 2, "single and repeated block bodies")
@@ -561,10 +624,21 @@ func fieldStoresByName(al *ssa.Alloc, name string) []*ssa.Store {
 	return out
 }
 
-// derivesFromCopyOf: v is src itself, or a slice made with len(src) into which src is copied.
+// derivesFromCopyOf: v is src itself, a slice made with len(src) into which src is copied, or the
+// result of a module helper that returns such a copy of the argument it is handed src for.
 func derivesFromCopyOf(v ssa.Value, src ssa.Value) bool {
 	if v == src {
 		return true
+	}
+	if ex, ok := v.(*ssa.Extract); ok {
+		if call, ok := ex.Tuple.(*ssa.Call); ok {
+			return helperCopies(call, ex.Index, src)
+		}
+	}
+	if call, ok := v.(*ssa.Call); ok {
+		if _, isB := call.Call.Value.(*ssa.Builtin); !isB {
+			return helperCopies(call, 0, src)
+		}
 	}
 	mk, ok := v.(*ssa.MakeSlice)
 	if !ok {
@@ -581,14 +655,57 @@ func derivesFromCopyOf(v ssa.Value, src ssa.Value) bool {
 	if lenOf(stripConv(mk.Len)) != src {
 		return false
 	}
-	for _, r := range *mk.Referrers() {
-		if call, ok := r.(*ssa.Call); ok {
-			if bi, ok := call.Call.Value.(*ssa.Builtin); ok && bi.Name() == "copy" && call.Call.Args[0] == ssa.Value(mk) && call.Call.Args[1] == src {
-				return true
+	for _, b := range mk.Parent().Blocks {
+		for _, ins := range b.Instrs {
+			call, ok := ins.(*ssa.Call)
+			if !ok {
+				continue
+			}
+			if bi, ok := call.Call.Value.(*ssa.Builtin); ok && bi.Name() == "copy" && call.Call.Args[1] == src {
+				for _, o := range originsOf(call.Call.Args[0], nil) {
+					if o == ssa.Value(mk) {
+						return true
+					}
+				}
 			}
 		}
 	}
 	return false
+}
+
+// helperCopies: result idx of the called module function is, on every return, a copy of the
+// parameter for which the call passes src.
+func helperCopies(call *ssa.Call, idx int, src ssa.Value) bool {
+	k := staticCallee(&call.Call)
+	if k == nil || !inModule(k) || len(k.Blocks) == 0 {
+		return false
+	}
+	var par *ssa.Parameter
+	for i, a := range call.Call.Args {
+		if a == src && i < len(k.Params) {
+			par = k.Params[i]
+		}
+	}
+	if par == nil {
+		return false
+	}
+	n := 0
+	for _, b := range k.Blocks {
+		r, ok := b.Instrs[len(b.Instrs)-1].(*ssa.Return)
+		if !ok || idx >= len(r.Results) {
+			continue
+		}
+		n++
+		for _, o := range originsOf(r.Results[idx], nil) {
+			if _, isCall := o.(*ssa.Call); isCall {
+				return false
+			}
+			if !derivesFromCopyOf(o, par) {
+				return false
+			}
+		}
+	}
+	return n > 0
 }
 
 func c03Comment(c *Ctx, co, ja *ssa.Function) {
